@@ -216,6 +216,11 @@ empty, otherwise the packets of `l` in list order followed by one `<r/>` -/
 def resendBlock (l : List (Nat × Nat)) : List Wire :=
   if l.isEmpty then [] else (l.map fun e => Wire.pkt e.2) ++ [Wire.r]
 
+/-- a stanza the client sends by itself — the reply to an IQ request (`QXmppOutgoingClient::handleStanza`'s
+feature-not-implemented answer, a manager's result), the initial presence of a new session — goes through
+`StreamAckManager::send` like an application stanza: it *is* `send true up`. -/
+abbrev Op.autoReply (up : Bool) : Op := .send true up
+
 /-- the handled count carried by the operation, for the operations that acknowledge themselves -/
 def Op.ackH : Op → Option Nat
   | .ack h _ _ => some h
